@@ -19,6 +19,8 @@ import IsoVerif.Lemmas.CorrectorLoop
 import IsoVerif.Lemmas.C11Mirror
 import IsoVerif.Lemmas.C11CorrectorMirror
 import IsoVerif.Lemmas.C11CorrectorMicro
+import IsoVerif.Lemmas.C11CorrectorSeg
+import IsoVerif.Lemmas.C11CorrectorLists
 
 namespace IsoVerif.Props.C11Corrector
 open IsoVerif.Gen IsoVerif.Model IsoVerif.Model.C14 IsoVerif.Model.C11 IsoVerif.Lemmas.C11
@@ -157,8 +159,10 @@ example : matchGenomicFeatures 3 (shiftL 256 [(20, 31), (22, 30), (50, 60)]) (sh
 Left/right swap: `fake_terminal_exon_left ↔ …_right`, `terminal_exon_misalignment_left ↔ …_right` (`swapLR`), read intron
 `i ↦ n − 1 − i`, isoform intron `j ↦ m − 1 − j` (`mirrorMEvent`), `err i left ↦ err (n − 1 − i) (¬ left)` (`mirrorErr`).
 Proved: one event of the if/elif chain, the fuzzy junction loop, the exon chain and its validity test.  False:
-`match_genomic_features` (takes the FIRST of equally distant candidates: `…_tie_witness`).  Open (searched by the
-harness, relation `M.process_events`): the whole `while` loop, `ProcessEventsMirror`. -/
+`match_genomic_features` (takes the FIRST of equally distant candidates: `…_tie_witness`).  The whole `while` loop with
+index-keyed events (`ProcessEventsMirror`) and `correct_assigned_read` through event lists are proved further down
+(`mirror_dual_processEvents`, `mirror_dual_correctAssignedRead`); the harness replays both on model and real code
+(relations `M.process_events`, `M.correct_assigned_read`). -/
 
 /-- one event of the chain on the mirrored data is the mirrored result (new introns in mirrored order) -/
 theorem mirror_dual_eventStep (L : Int) (p : CParams) (rr : Iv) (ri corr : List Iv) (isoR : Iv) (isoI : List Iv)
@@ -354,12 +358,11 @@ theorem mirror_dual_validIntronChain (L : Int) (l : List Iv) :
 example : validIntronChain (mirrorL 100 [(11, 20), (31, 40)]) = true ∧ validIntronChain [(11, 20), (21, 40)] = false ∧
     validIntronChain (mirrorL 100 [(11, 20), (21, 40)]) = false := by decide
 
-/-- OPEN (not proved; evaluated by the harness on model and real code, relation `M.process_events`): the whole
-    `while` loop of `process_events` without fuzzy junction correction (which is not mirror-symmetric on ties) on a
-    well-formed event map WITH index-keyed events.  Proved instances: `emap = []` (every micro map:
-    `mirror_dual_processEvents_micro`), the per-event step (`mirror_dual_eventStep`), the per-exon micro step
-    (`mirror_dual_microStep`).  What is missing is the equivalence of the left-to-right and the right-to-left
-    segmentation of the intron list by the event ranges. -/
+/-- the whole `while` loop of `process_events` (+ the step after it) without fuzzy junction correction (which is not
+    mirror-symmetric on ties) on a well-formed event map WITH index-keyed events and any well-formed micro map:
+    `process_events` of the mirrored input (events keyed by the mirror image of their LAST read intron, left/right
+    names swapped, micro bindings counted from the other end) is the mirrored result, the same exception included.
+    Proved below (`mirror_dual_processEvents`); the instance `emap = []` is `mirror_dual_processEvents_micro`. -/
 def ProcessEventsMirror : Prop :=
   ∀ (L : Int) (p : CParams) (err : Nat → Bool → Int × Int) (known : List Iv) (emap : List (Int × MEvent))
     (mm : List (Int × Int)) (rr : Iv) (ri : List Iv) (isoR : Iv) (isoI : List Iv),
@@ -367,6 +370,169 @@ def ProcessEventsMirror : Prop :=
     processEvents p (mirrorErr ri.length err) (mirrorL L known) (mirrorEmap ri.length isoI.length emap)
         (mirrorMicroMap ri.length isoI.length mm) (mirrorIv L rr) (mirrorL L ri) (mirrorIv L isoR) (mirrorL L isoI)
       = mirrorExRes L (processEvents p err known emap mm rr ri isoR isoI)
+
+/-- **`ProcessEventsMirror` holds.**  The loop walks the tiling of the read introns by the event ranges left to right
+    (`loop_eq_back`: its result is the summary `backS` of the tiling, which is defined from the RIGHT end), the loop
+    on the mirrored data walks the same tiling right to left (`mirror_loop_back`); per segment the two agree by
+    `mirror_dual_eventStep` / `mirror_dual_microStep`; the region updates commute because `EmapWF` allows one event
+    per region end (needed: `mirror_processEvents_override_witness`); every exception of a well-formed map is the failed
+    `assert` (`evOut_err`), so the order in which the runs meet it does not matter. -/
+theorem mirror_dual_processEvents : ProcessEventsMirror := by
+  intro L p err known emap mm rr ri isoR isoI hf hwf hw
+  have ho := emapOK_of_wf hwf
+  have h1 := mirror_loop_back L ⟨p, emap, mm, rr, ri, ri, isoR, isoI⟩ rfl hw ho (2 * ri.length + emap.length + 2) 0
+    (mirrorIv L rr) [] (by omega) (by simp only; omega)
+  have h2 := loop_eq_back ⟨p, emap, mm, rr, ri, ri, isoR, isoI⟩ rfl hw ho (2 * ri.length + emap.length + 2) 0 rr []
+    (by omega) (by simp only; omega) (bd_zero ho)
+  rw [backS_zero] at h2
+  have hlen : (mirrorEmap ri.length isoI.length emap).length = emap.length := by simp [mirrorEmap]
+  simp only [processEvents, correctedIntrons, hf, Bool.false_eq_true, if_false, eventFuel, mirrorL_length, hlen]
+  have happ : RegUpd.app (none, none) rr = rr := rfl
+  simp only [LCtx.loop, LCtx.mirror, Int.natCast_zero, Nat.sub_zero, List.nil_append, happ, totalS] at h1 h2
+  rw [h1, h2]
+  cases backS ⟨p, emap, mm, rr, ri, ri, isoR, isoI⟩ ri.length with
+  | error x => rfl
+  | ok q =>
+    obtain ⟨u, xs⟩ := q
+    simp only [mirrorExRes, mirrorUpd_app]
+
+-- non-vacuity: a well-formed event map with an index-keyed event of each end and an inner one, and the two sides
+example : EmapWF 3 2 [(0, ⟨MatchEventSubtype.fake_terminal_exon_left, (0, 0), (0, 0)⟩),
+                      (1, ⟨MatchEventSubtype.exon_misalignment, (0, 1), (1, 1)⟩),
+                      (2, ⟨MatchEventSubtype.fake_terminal_exon_right, (0, 0), (2, 2)⟩)] := by
+  refine ⟨by decide, ?_, by decide, by decide, by decide, by decide⟩
+  intro q hq
+  simp only [List.mem_cons, List.not_mem_nil, or_false] at hq
+  rcases hq with rfl | rfl | rfl <;> intro _ <;>
+    exact ⟨rfl, by decide, ⟨by decide, fun _ => by decide, by intro h; rcases h with h | h <;> cases h⟩⟩
+example : processEvents ⟨⟨false, false, true, false, true, false⟩, 6⟩ (mirrorErr 3 (fun _ _ => (0, 0))) []
+      (mirrorEmap 3 2 [(0, ⟨MatchEventSubtype.fake_terminal_exon_left, (0, 0), (0, 0)⟩),
+                       (1, ⟨MatchEventSubtype.exon_misalignment, (0, 1), (1, 1)⟩),
+                       (2, ⟨MatchEventSubtype.fake_terminal_exon_right, (0, 0), (2, 2)⟩)]) []
+      (mirrorIv 1000 (1, 900)) (mirrorL 1000 [(11, 20), (101, 400), (801, 850)]) (mirrorIv 1000 (21, 800))
+      (mirrorL 1000 [(101, 200), (301, 400)])
+    = .ok (mirrorIv 1000 (21, 800), mirrorL 1000 [(101, 200), (301, 400)]) ∧
+    processEvents ⟨⟨false, false, true, false, true, false⟩, 6⟩ (fun _ _ => (0, 0)) []
+      [(0, ⟨MatchEventSubtype.fake_terminal_exon_left, (0, 0), (0, 0)⟩),
+       (1, ⟨MatchEventSubtype.exon_misalignment, (0, 1), (1, 1)⟩),
+       (2, ⟨MatchEventSubtype.fake_terminal_exon_right, (0, 0), (2, 2)⟩)] []
+      (1, 900) [(11, 20), (101, 400), (801, 850)] (21, 800) [(101, 200), (301, 400)]
+    = .ok ((21, 800), [(101, 200), (301, 400)]) := by decide +kernel
+
+/-! ### reflection through event LISTS (`correct_misalignments` + `process_events` + the validity gates)
+
+`mirrorEventList n m evs` (Model/C11SymBedCorr.lean): every event seen from the other end by `mirrorMEventS` — the two
+sentinels of `read_region` are KEPT (undefined region: unchanged; absent position + read exon `k`: absent position + exon
+`n − k`), all other events are `mirrorMEvent` — in the opposite order. -/
+
+/-- what the reflection theorem needs of an event list (all decidable): its event map and its micro bindings are well
+    formed (`EmapWF`, `MicroWF`), an event that names a read EXON (absent sentinel) names ONE isoform intron (true of
+    the only such event the comparator emits: `isoform_region = (i, i)`, junction_comparator.py), and the read has at
+    most 2³¹ − 1 introns, so that no intron index is mirrored onto a sentinel -/
+structure EventsMirrorable (p : CParams) (n m : Nat) (evs : List MEvent) : Prop where
+  emap : EmapWF n m (buildEventMap evs)
+  micro : MicroWF n m (buildMicroMap p.fl.microintron_retention evs)
+  single : ∀ e ∈ evs, e.read.1 = absentPosition → e.iso.1 = e.iso.2
+  size : (n : Int) ≤ absentPosition
+
+/-- the sentinel-preserving event mirror is `mirrorMEvent` on every event that enters the event map -/
+theorem mirrorMEventS_of_normal (n m : Nat) (e : MEvent) (h1 : e.read ≠ undefinedRegion) (h2 : e.read.1 ≠ absentPosition) :
+    mirrorMEventS n m e = mirrorMEvent n m e :=
+  mirrorS_of_normal n m e (by simp [normalB, h1, h2])
+
+/-- … and keeps both sentinels -/
+theorem mirrorMEventS_sentinel (n m : Nat) (e : MEvent) :
+    (e.read = undefinedRegion → (mirrorMEventS n m e).read = undefinedRegion) ∧
+    (e.read ≠ undefinedRegion → e.read.1 = absentPosition →
+      (mirrorMEventS n m e).read = (absentPosition, (n : Int) - e.read.2)) := by
+  refine ⟨fun h => by simp [mirrorMEventS, h], fun h1 h2 => by simp [mirrorMEventS, h1, h2]⟩
+
+theorem eventsMirrorable_normal {p : CParams} {n m : Nat} {evs : List MEvent} (h : EventsMirrorable p n m evs) :
+    ∀ e ∈ evs, normalB e = true → normalB (mirrorMEvent n m e) = true := by
+  intro e he hb
+  have hq := buildEventMap_mem_of he hb
+  obtain ⟨_, h2, _, h4, _, _⟩ := h.emap
+  exact normalB_mirror_of_inrange n m e h.size (h2 _ hq (h4 _ hq)).2.2.read
+
+/-- event map and micro bindings of the mirrored event list -/
+theorem mirror_dual_buildEventMap {p : CParams} {n m : Nat} {evs : List MEvent} (h : EventsMirrorable p n m evs) :
+    buildEventMap (mirrorEventList n m evs) = mirrorEmap n m (buildEventMap evs).reverse :=
+  buildEventMap_mirror n m evs (eventsMirrorable_normal h)
+
+theorem mirror_dual_buildMicroMap {p : CParams} {n m : Nat} {evs : List MEvent} (h : EventsMirrorable p n m evs) :
+    buildMicroMap p.fl.microintron_retention (mirrorEventList n m evs)
+      = mirrorMicroMap n m (buildMicroMap p.fl.microintron_retention evs) :=
+  buildMicroMap_mirror n m _ evs (eventsMirrorable_normal h) h.single
+
+/-- **`correct_assigned_read` is mirror dual** (fuzzy junction correction off): the corrected exons of the mirrored read
+    with the mirrored event list on the mirrored annotation are the mirrored corrected exons; an exception is the same
+    exception; a correction rejected by `is_valid_intron_chain` / `is_valid_exon_chain` is rejected in both runs -/
+theorem mirror_dual_correctAssignedRead (L : Int) (p : CParams) (err : Nat → Bool → Int × Int) (known : List Iv)
+    (noninformative : Bool) (evs : List MEvent) (isoRegion : Iv) (isoIntrons exons : List Iv)
+    (hf : p.fl.fuzzy_junctions = false)
+    (h : EventsMirrorable p (junctionsFromBlocks exons).length isoIntrons.length evs) :
+    correctAssignedRead p (mirrorErr (junctionsFromBlocks exons).length err) (mirrorL L known) noninformative
+        (some (mirrorEventList (junctionsFromBlocks exons).length isoIntrons.length evs)) (mirrorIv L isoRegion)
+        (mirrorL L isoIntrons) (mirrorL L exons)
+      = mirrorExL L (correctAssignedRead p err known noninformative (some evs) isoRegion isoIntrons exons) := by
+  unfold correctAssignedRead
+  simp only [mirrorL_length, mirrorL_head?, mirrorL_getLast?]
+  split
+  · rfl
+  · cases hh : exons.head? <;> cases hl : exons.getLast? <;> simp only [Option.map_none, Option.map_some] <;>
+      try rfl
+    rename_i f l
+    have hpe := mirror_dual_processEvents L p err known (buildEventMap evs).reverse
+      (buildMicroMap p.fl.microintron_retention evs) (f.1, l.2) (junctionsFromBlocks exons) isoRegion isoIntrons hf
+      (emapWF_reverse h.emap) h.micro
+    rw [processEvents_reverse _ _ _ _ _ _ _ _ _ h.emap.1] at hpe
+    have hrr : ((mirrorIv L l).1, (mirrorIv L f).2) = mirrorIv L (f.1, l.2) := rfl
+    rw [junctionsFromBlocks_mirror, mirror_dual_buildEventMap h, mirror_dual_buildMicroMap h, hrr, hpe]
+    cases processEvents p err known (buildEventMap evs) (buildMicroMap p.fl.microintron_retention evs) (f.1, l.2)
+        (junctionsFromBlocks exons) isoRegion isoIntrons with
+    | error x => rfl
+    | ok q =>
+      obtain ⟨reg, ni⟩ := q
+      simp only [mirrorExRes, buildExons_mirror, validChain_mirror, validIntronChain_mirror]
+      split <;> rfl
+
+-- non-vacuity: an event list with an index-keyed event, a micro-intron retention in the LAST read exon (absent
+-- sentinel kept by the mirror) and an undefined-region event; hypotheses and both sides
+example : mirrorEventList 2 3 [⟨MatchEventSubtype.fake_micro_intron_retention, (2, 2), (absentPosition, 2)⟩,
+      ⟨MatchEventSubtype.intron_retention, (0, 0), undefinedRegion⟩,
+      ⟨MatchEventSubtype.fake_terminal_exon_left, (0, 0), (0, 0)⟩]
+    = [⟨MatchEventSubtype.fake_terminal_exon_right, (2, 2), (1, 1)⟩,
+       ⟨MatchEventSubtype.intron_retention, (2, 2), undefinedRegion⟩,
+       ⟨MatchEventSubtype.fake_micro_intron_retention, (0, 0), (absentPosition, 0)⟩] := by decide
+example : EventsMirrorable ⟨⟨false, false, false, false, true, true⟩, 6⟩ 2 3
+    [⟨MatchEventSubtype.fake_micro_intron_retention, (2, 2), (absentPosition, 2)⟩,
+     ⟨MatchEventSubtype.intron_retention, (0, 0), undefinedRegion⟩,
+     ⟨MatchEventSubtype.fake_terminal_exon_left, (0, 0), (0, 0)⟩] := by
+  refine ⟨⟨by decide, ?_, by decide, by decide, by decide, by decide⟩, ?_, by decide, by decide⟩
+  · intro q hq
+    have : q = (0, ⟨MatchEventSubtype.fake_terminal_exon_left, (0, 0), (0, 0)⟩) := by
+      revert hq; simp [buildEventMap, addEvent, undefinedRegion, absentPosition, smc_undefined_region, smc_absent_position]
+    subst this
+    intro _
+    exact ⟨rfl, by decide, ⟨by decide, fun _ => by decide, by intro h; rcases h with h | h <;> cases h⟩⟩
+  · intro q hq
+    have : q = (2, 2) := by
+      revert hq
+      simp [buildMicroMap, microEntry, undefinedRegion, absentPosition, smc_undefined_region, smc_absent_position,
+        corrector_micro_intron_test]
+    subst this; decide
+example : correctAssignedRead ⟨⟨false, false, false, false, true, true⟩, 6⟩ (fun _ _ => (0, 0)) [] false
+      (some [⟨MatchEventSubtype.fake_micro_intron_retention, (2, 2), (absentPosition, 2)⟩,
+             ⟨MatchEventSubtype.intron_retention, (0, 0), undefinedRegion⟩,
+             ⟨MatchEventSubtype.fake_terminal_exon_left, (0, 0), (0, 0)⟩]) (6000, 8300)
+      [(6301, 6999), (7301, 7799), (8092, 8099)] [(6000, 6300), (7000, 7300), (7800, 8300)]
+    = .ok [(7000, 7300), (7800, 8091), (8100, 8300)] ∧
+    correctAssignedRead ⟨⟨false, false, false, false, true, true⟩, 6⟩ (mirrorErr 2 (fun _ _ => (0, 0))) [] false
+      (some (mirrorEventList 2 3 [⟨MatchEventSubtype.fake_micro_intron_retention, (2, 2), (absentPosition, 2)⟩,
+             ⟨MatchEventSubtype.intron_retention, (0, 0), undefinedRegion⟩,
+             ⟨MatchEventSubtype.fake_terminal_exon_left, (0, 0), (0, 0)⟩])) (mirrorIv 9000 (6000, 8300))
+      (mirrorL 9000 [(6301, 6999), (7301, 7799), (8092, 8099)]) (mirrorL 9000 [(6000, 6300), (7000, 7300), (7800, 8300)])
+    = .ok (mirrorL 9000 [(7000, 7300), (7800, 8091), (8100, 8300)]) := by decide +kernel
 
 /-- why `EmapWF` allows one event per region end: the LAST `fake_terminal_exon_right` event wins, which is the other
     one in the mirrored run (found by the search for `ProcessEventsMirror`; model and real code agree) -/
